@@ -1233,14 +1233,14 @@ class ReactionSet:
                         if value: new_stoic[i, chemicals.index(IDs[j])] = value
             reactant_index = [(phases.index(i), chemicals.index(j)) for i, j in reactants]
         else:
-            A, B = np.array(stoichiometry).shape
-            new_stoichiometry = SparseArray.from_shape([A, chemicals.size])
+            new_stoichiometry = []
             IDs = self.chemicals.IDs
-            for i in range(A):
-                for j in range(B):
-                    value = stoichiometry[i, j]
-                    if value: new_stoichiometry[i, chemicals.index(IDs[j])] = value
-            reactant_index = [chemicals.index(i) for i in reactants]
+            for stoic in stoichiometry:
+                new_stoic = SparseVector.from_size(chemicals.size)
+                new_stoichiometry.append(new_stoic)
+                for j, value in stoic.nonzero_items():
+                    new_stoic[chemicals.index(IDs[j])] = value
+            reactant_index = np.array([chemicals.index(i) for i in reactants])
         self._chemicals = chemicals
         self._stoichiometry = new_stoichiometry
         self._reactant_index = reactant_index
